@@ -196,6 +196,10 @@ def trr_cases(draw):
     n = draw(st.integers(1, 20))
     nf = draw(st.integers(1, 5))
     frames = [{"x": [draw(VAL) for _ in range(3 * n)], "v": [draw(VAL) for _ in range(3 * n)], "box": [draw(st.floats(1, 30).map(lambda x: round(x, 5))) if i in (0, 4, 8) else 0.0 for i in range(9)]} for _ in range(nf)]
+    if draw(st.booleans()):
+        # triclinic cells (GROMACS stores the box vectors as rows: a = (xx,0,0), b = (yx,yy,0), c = (zx,zy,zz))
+        for f in frames:
+            f["box"][3], f["box"][6], f["box"][7] = draw(st.floats(0.1, 5).map(lambda x: round(x, 5))), draw(st.floats(-5, -0.1).map(lambda x: round(x, 5))), draw(st.floats(5.1, 9).map(lambda x: round(x, 5)))
     c = {"n": n, "frames": frames, "k": draw(st.integers(0, nf - 1)), "with_v": draw(st.booleans()), "with_f": draw(st.booleans())}
     if nf >= 2 and draw(st.booleans()):
         # velocities / forces written at other intervals than positions (nstvout, nstfout != nstxout): frames of different size
@@ -256,6 +260,12 @@ def body_trr(rec, c):
             fr = c["frames"][k]
             rec.check(close(g["pos"], np.array(fr["x"]).reshape(n, 3), 5e-10) and close(g["vel"], np.array(fr["v"]).reshape(n, 3), 5e-10), "trr:extract-frame-k-to-g96", f"k={k}")
             rec.check(g["box"] is not None and close([g["box"][0], g["box"][1], g["box"][2]], [fr["box"][0], fr["box"][4], fr["box"][8]], 5e-10), "trr:extract-box", f"{g['box']} vs {fr['box']}")
+            M = fr["box"]  # row-major 3x3
+            if any(M[i] != 0 for i in (1, 2, 3, 5, 6, 7)):
+                rec.cls("trr:triclinic-box")
+                # g96 BOX block: XX YY ZZ XY XZ YX YZ ZX ZY
+                want9 = [M[0], M[4], M[8], M[1], M[2], M[3], M[5], M[6], M[7]]
+                rec.check(g["box"] is not None and len(g["box"]) == 9 and close(list(g["box"]), want9, 5e-10), "trr:extract-triclinic-box", f"g96 BOX {g['box']} vs XX YY ZZ XY XZ YX YZ ZX ZY = {want9}")
     finally:
         isolate.rmscratch(d)
 
